@@ -2,6 +2,7 @@ import BufProofs.Lemmas.PathLemmas
 import BufProofs.Lemmas.BucketLemmas
 import BufProofs.Lemmas.DiskRootLemmas
 import BufProofs.Lemmas.ArchiveKindsLemmas
+import BufProofs.Lemmas.FileNodeGateLemmas
 /-
   C13 — No path can escape a bucket's root.  Property theorems only; helper lemmas live in
   BufProofs/Lemmas.
@@ -626,5 +627,186 @@ theorem untar_apple_before_name_check_counterexample :
 -- an AppleDouble-named entry with a PROPER name is still skipped, not written and not an error
 example : untar [{ kind := .tar .reg .none, name := "a/._x".toList, linkname := [], content := "E" }, exReg] 0 allP 0 =
     (none, [("top/a/x".toList, "A")]) := by decide
+
+/-! ### The bufcas gate (module file paths): `validateFileNodeParameters`
+
+`bufcas.NewFileNode`, `ParseFileNode` and through it `ParseManifest` / `BlobToManifest` /
+`NewFileSetForBucket` all pass every path through one gate (`BufModel.FileNodeGate.fileNodeGate`:
+non-empty ∧ `NormalizeAndValidate p = p` ∧ no line feed).  The theorems below put the gate under
+the exact-shape theorems above: what it accepts is exactly the canonical rendering of a key of
+proper names (as coded this includes "." — the empty key — which names the root itself and does
+not leave it), so nothing that is absolute, is "..", starts with "../", or is not in normal form
+can be the path of a file node or occur on any line of a manifest. -/
+
+section BufcasGate
+open BufModel.FileNodeGate BufModel.Manifest
+
+/-- The gate accepts exactly the canonical renderings of keys of proper names without a line
+    feed: relative, every component proper, and the string IS its own rendering. -/
+theorem fileNode_gate_accepts_iff_shape (p : Str) :
+    fileNodeGate p = true ↔ ∃ k : Key, AllProper k ∧ p = renderKey k ∧ '\n' ∉ p := by
+  constructor
+  · intro h
+    simp only [fileNodeGate, Bool.and_eq_true, decide_eq_true_eq, Bool.not_eq_true',
+      decide_eq_false_iff_not] at h
+    obtain ⟨⟨_, hv⟩, hl⟩ := h
+    obtain ⟨k, hk, hp⟩ := validate_sound p p hv
+    exact ⟨k, hk, hp, hl⟩
+  · rintro ⟨k, hk, rfl, hl⟩
+    simp only [fileNodeGate, Bool.and_eq_true, decide_eq_true_eq, Bool.not_eq_true',
+      decide_eq_false_iff_not]
+    exact ⟨⟨renderKey_ne_nil hk, validate_renderKey hk⟩, hl⟩
+
+/-- The same in the vocabulary of `accepted_iff_shape`: accepted ⇔ non-empty, relative, nothing
+    but proper names survives the lexical reduction, the path is already in cleaned form, no LF. -/
+theorem fileNode_gate_accepts_iff_reduce (p : Str) :
+    fileNodeGate p = true ↔
+      (p ≠ [] ∧ isAbs p = false ∧ AllProper (reduce false (splitSlash p)) ∧ clean p = p ∧ '\n' ∉ p) := by
+  constructor
+  · intro h
+    simp only [fileNodeGate, Bool.and_eq_true, decide_eq_true_eq, Bool.not_eq_true',
+      decide_eq_false_iff_not] at h
+    obtain ⟨⟨hne, hv⟩, hl⟩ := h
+    obtain ⟨ha, hp⟩ := (accepted_iff_shape p).mp ⟨p, hv⟩
+    refine ⟨hne, ha, hp, ?_, hl⟩
+    unfold normalizeAndValidate at hv
+    simp only at hv
+    split at hv
+    · cases hv
+    · split at hv
+      · cases hv
+      · exact Except.ok.inj hv
+  · rintro ⟨hne, ha, hp, hc, hl⟩
+    obtain ⟨q, hq⟩ := (accepted_iff_shape p).mpr ⟨ha, hp⟩
+    have hqp : q = p := by
+      unfold normalizeAndValidate at hq
+      simp only at hq
+      split at hq
+      · cases hq
+      · split at hq
+        · cases hq
+        · rw [← Except.ok.inj hq, hc]
+    subst hqp
+    simp only [fileNodeGate, Bool.and_eq_true, decide_eq_true_eq, Bool.not_eq_true',
+      decide_eq_false_iff_not]
+    exact ⟨⟨hne, hq⟩, hl⟩
+
+/-- Every name that would leave the root — its cleaned form is absolute, is "..", or starts with
+    "../" — is refused by the gate, whatever its spelling. -/
+theorem fileNode_gate_rejects_escaping (p : Str)
+    (h : isAbs (clean p) = true ∨ clean p = dotdot ∨ jumpPrefix.isPrefixOf (clean p) = true) :
+    fileNodeGate p = false := by
+  obtain ⟨e, he⟩ := (rejected_iff p).mpr h
+  simp [fileNodeGate, he]
+
+/-- A spelling that is not its own normal form ("a//b", "./a", "a/../b", "a/") is refused. -/
+theorem fileNode_gate_rejects_unnormalized (p : Str) (h : clean p ≠ p) : fileNodeGate p = false := by
+  cases hg : fileNodeGate p with
+  | false => rfl
+  | true => exact absurd ((fileNode_gate_accepts_iff_reduce p).mp hg).2.2.2.1 h
+
+/-- The gate predicate is the verdict of the as-coded check sequence, and of C08's model of the
+    same function (so `newFileNode` / `parseFileNode` / `parseManifest` of `BufModel.Manifest`
+    are behind this gate). -/
+theorem fileNode_gate_is_validateFileNodeParameters (p : Str) :
+    (fileNodeGate p = true ↔ fileNodeGateE p = .ok ()) ∧
+    (fileNodeGate p = true ↔ validateNodePath p = .ok ()) :=
+  ⟨fileNodeGate_iff_gateE p, fileNodeGate_iff_validateNodePath p⟩
+
+/-- `NewFileNode` and `ParseFileNode` (of a well-formed `digest[SP][SP]path` text) succeed
+    exactly when the gate accepts the path, and then carry the path unchanged. -/
+theorem newFileNode_parseFileNode_gate (p : Str) (d : Digest) :
+    (fileNodeGate p = true → newFileNode p d = .ok ⟨p, d⟩ ∧ parseFileNode (nodeLine (d, p)) = .ok ⟨p, d⟩) ∧
+    (fileNodeGate p = false → (∃ e, newFileNode p d = .error e) ∧ (∃ e, parseFileNode (nodeLine (d, p)) = .error e)) := by
+  constructor
+  · intro h
+    have h1 := newFileNode_ok d ((fileNodeGate_iff_validateNodePath p).mp h)
+    exact ⟨h1, by rw [parseFileNode_nodeLine]; exact h1⟩
+  · intro h
+    have h2 := parseFileNode_nodeLine_error (x := (d, p)) h
+    refine ⟨?_, h2⟩
+    rw [parseFileNode_nodeLine] at h2
+    exact h2
+
+/-- A manifest text with ONE line whose path the gate refuses — at any position among any other
+    lines, whatever those say — is refused by `ParseManifest`. -/
+theorem manifest_gate_rejects_escaping_at_any_position (pre post : List (Digest × Str)) (d : Digest) (p : Str)
+    (hnl : ∀ x ∈ pre ++ (d, p) :: post, '\n' ∉ x.2) (h : fileNodeGate p = false) :
+    ∃ e, parseManifest (linesText (pre ++ (d, p) :: post)) = .error e := by
+  rw [parseManifest_linesText _ (by simp) hnl]
+  obtain ⟨e, he⟩ := parseLines_nodeLines_error (pre ++ (d, p) :: post) ⟨(d, p), by simp, h⟩
+  exact ⟨e, by rw [he]⟩
+
+/-- `ParseManifest` of well-formed lines succeeds exactly when every path passes the gate and no
+    path occurs twice; in particular a parsed manifest never holds an escaping path. -/
+theorem manifest_gate_accepts_iff (ls : List (Digest × Str)) (hne : ls ≠ [])
+    (hnl : ∀ x ∈ ls, '\n' ∉ x.2) :
+    (∃ m, parseManifest (linesText ls) = .ok m) ↔ manifestPathsGate (ls.map (·.2)) = true := by
+  rw [parseManifest_linesText ls hne hnl]
+  simp only [manifestPathsGate, Bool.and_eq_true, List.all_eq_true, decide_eq_true_eq, List.mem_map,
+    forall_exists_index, and_imp, forall_apply_eq_imp_iff₂]
+  by_cases hall : ∀ x ∈ ls, fileNodeGate x.2 = true
+  · rw [parseLines_nodeLines_ok ls hall]
+    simp only
+    constructor
+    · rintro ⟨m, hm⟩
+      have := (newManifest_eq_ok hm).1
+      rw [map_path_lineNode] at this
+      exact ⟨hall, this⟩
+    · rintro ⟨_, hnd⟩
+      exact ⟨_, newManifest_of_nodup _ (by rw [map_path_lineNode]; exact hnd)⟩
+  · have hex : ∃ x ∈ ls, fileNodeGate x.2 = false := by
+      apply Classical.byContradiction
+      intro hno
+      apply hall
+      intro x hx
+      cases hg : fileNodeGate x.2 with
+      | true => rfl
+      | false => exact absurd ⟨x, hx, hg⟩ hno
+    obtain ⟨e, he⟩ := parseLines_nodeLines_error ls hex
+    rw [he]
+    constructor
+    · rintro ⟨m, hm⟩; cases hm
+    · rintro ⟨h, _⟩; exact absurd h hall
+
+/-- Every path of a successfully parsed manifest is the rendering of a key of proper names. -/
+theorem parsed_manifest_paths_proper (ls : List (Digest × Str)) (hne : ls ≠ [])
+    (hnl : ∀ x ∈ ls, '\n' ∉ x.2) (m : Manifest) (h : parseManifest (linesText ls) = .ok m) :
+    ∀ x ∈ ls, ∃ k : Key, AllProper k ∧ x.2 = renderKey k := by
+  have hg := (manifest_gate_accepts_iff ls hne hnl).mp ⟨m, h⟩
+  simp only [manifestPathsGate, Bool.and_eq_true, List.all_eq_true, List.mem_map,
+    forall_exists_index, and_imp, forall_apply_eq_imp_iff₂] at hg
+  intro x hx
+  obtain ⟨k, hk, hp, _⟩ := (fileNode_gate_accepts_iff_shape x.2).mp (hg.1 x hx)
+  exact ⟨k, hk, hp⟩
+
+-- non-vacuity and the as-coded corner cases
+example : fileNodeGate "a/b.proto".toList = true := by decide
+example : fileNodeGate "..a/b..".toList = true := by decide
+example : fileNodeGate "a\\..\\b".toList = true := by decide      -- '\\' is a name character on unix
+example : fileNodeGate ".".toList = true := by decide               -- as coded: the root itself passes the gate
+example : fileNodeGate "".toList = false := by decide
+example : fileNodeGate "a//b".toList = false ∧ fileNodeGate "./a".toList = false ∧ fileNodeGate "a/".toList = false := by decide
+example : fileNodeGate "a/../../x".toList = false ∧ fileNodeGate "a\nb".toList = false := by decide
+example : fileNodeGateE "/etc/passwd".toList = .error (.invalid .notRelative) := by decide
+example : fileNodeGateE "../x.proto".toList = .error (.invalid .outsideContext) := by decide
+example : fileNodeGateE "a/./b".toList = .error .notNormal := by decide
+
+/-- Seed C13-m10: the gate "simplified" to `Normalize` + equality accepts every name that is
+    already in cleaned form and STILL leaves the root; the gate as coded refuses them. -/
+theorem normalize_only_gate_counterexample :
+    (normalizeOnlyGate "..".toList = true ∧ fileNodeGate "..".toList = false) ∧
+    (normalizeOnlyGate "../x.proto".toList = true ∧ fileNodeGate "../x.proto".toList = false) ∧
+    (normalizeOnlyGate "../../etc/passwd".toList = true ∧ fileNodeGate "../../etc/passwd".toList = false) ∧
+    (normalizeOnlyGate "/etc/passwd".toList = true ∧ fileNodeGate "/etc/passwd".toList = false) ∧
+    -- ... while every unnormalised spelling is still refused by both, which is why it went unnoticed
+    (normalizeOnlyGate "a/../../x".toList = false ∧ normalizeOnlyGate "./../x".toList = false) := by decide
+
+/-- A sibling mutation: a gate that keeps the ".." tests and forgets only the absolute-path test. -/
+theorem no_abs_test_gate_counterexample :
+    noAbsTestGate "/etc/passwd".toList = true ∧ noAbsTestGate "/".toList = true ∧
+    noAbsTestGate "../x".toList = false ∧ fileNodeGate "/etc/passwd".toList = false ∧ fileNodeGate "/".toList = false := by decide
+
+end BufcasGate
 
 end BufProofs.C13
